@@ -37,6 +37,7 @@ type retInfo struct {
 	st   *State
 	vals []string
 	blk  *ssa.BasicBlock // block of the return (for resolving reassigned locals in postconditions)
+	ssa  []ssa.Value     // the returned SSA values (an inlined helper returning a flag-channel field passes that on)
 }
 
 type Exec struct {
@@ -62,6 +63,8 @@ type Exec struct {
 	edges  map[*ssa.BasicBlock][]edgeIn
 	deferList []*ssa.Defer
 	discovery int // >0 while in loop-discovery mode
+	flagAlias map[ssa.Value]bool // results of inlined helpers that return a flag-channel field
+	lastInlineFlag bool
 	runningDefer bool // executing a deferred call (its function value was checked at the defer statement)
 	callOrd map[string]int
 	paramVals map[string]val
@@ -570,7 +573,7 @@ func (x *Exec) execBlock(b *ssa.BasicBlock, st *State, within *loopInfo) {
 			for _, r := range t.Results {
 				vs = append(vs, x.value(r))
 			}
-			x.rets = append(x.rets, retInfo{st, vs, b})
+			x.rets = append(x.rets, retInfo{st, vs, b, t.Results})
 			return
 		case *ssa.Panic:
 			x.implicit(st, in, "panic", "false", "explicit panic")
@@ -1190,7 +1193,7 @@ func (x *Exec) unop(st *State, t *ssa.UnOp) {
 		et := t.X.Type().Underlying().(*types.Chan).Elem()
 		c := vc.fresh("recv", vc.sortOf(et))
 		x.assumeType(st, c, et)
-		if x.g.isFlagChan(t.X) {
+		if x.isFlagChan(t.X) {
 			// never sent on: the receive completes only when the channel is closed (same rule as in select)
 			vc.regComp("ChanClosed", "(Array Int Bool)")
 			vc.assert(implies(st.reach, sel(vc.get(st, "ChanClosed"), x.value(t.X))))
@@ -1652,7 +1655,7 @@ func (x *Exec) selectInstr(st *State, t *ssa.Select) {
 			if !t.Blocking && len(t.States) == 1 {
 				vc.assert(implies(and(st.reach, sel(closed, ch)), eq(idx, "0")))
 			}
-			if x.g.isFlagChan(s.Chan) {
+			if x.isFlagChan(s.Chan) {
 				// never sent on: a receive completes only when closed
 				vc.assert(implies(and(st.reach, eq(idx, fmt.Sprint(i))), sel(closed, ch)))
 				x.assumeSignal(st, s.Chan, eq(idx, fmt.Sprint(i)))
@@ -1663,6 +1666,11 @@ func (x *Exec) selectInstr(st *State, t *ssa.Select) {
 		}
 	}
 	x.tups[t] = tup
+}
+
+// isFlagChan: a flag channel (declared field, ctx.Done()), or the result of an inlined helper that returned one.
+func (x *Exec) isFlagChan(v ssa.Value) bool {
+	return x.g.isFlagChan(v) || x.flagAlias[v]
 }
 
 // assumeSignal: a completed receive from a channel declared `flagchan T.f signals Pred` lets the receiver assume
